@@ -153,8 +153,9 @@ def incr_form(e):
 
 
 class Comparer(object):
-    def __init__(self, fa, fb, letters, known_names, twin=False):
+    def __init__(self, fa, fb, letters, known_names, twin=False, subst_a=None, subst_b=None):
         self.fa, self.fb = fa, fb
+        self.subst_a, self.subst_b = subst_a or {}, subst_b or {}
         self.letters = letters
         self.known = known_names
         self.ab = {}
@@ -249,8 +250,45 @@ class Comparer(object):
                 wrote = True
         return wrote
 
+    @staticmethod
+    def simple_assign(s):
+        """(target var id, set of var ids read) if s is  v = <pure expr>  /  T v = <pure expr>  with a plain local target"""
+        tgt = rhs = None
+        if s.k == 'Var' and s.c:
+            tgt, rhs = s.a['id'], s.c[0]
+        elif s.k == 'Assign' and s.a['op'] == '=' and strip(s.c[0]).k == 'Ref' and strip(s.c[0]).a.get('dk') == 'VarDecl':
+            tgt, rhs = strip(s.c[0]).a['id'], s.c[1]
+        if tgt is None or not pure_expr(rhs):
+            return None
+        if any(x.k == 'Call' for x in rhs.walk()):
+            return None
+        return tgt, {x.a.get('id') for x in rhs.walk() if x.k == 'Ref'}
+
+    def independent(self, group):
+        """the LAST statement of `group` may be moved in front of the others: all are simple assignments to locals, and the moved
+        one neither reads nor writes a target of the skipped ones, nor do they read its target"""
+        infos = [self.simple_assign(s) for s in group]
+        if any(i is None for i in infos):
+            return False
+        mt, mreads = infos[-1]
+        for (t, reads) in infos[:-1]:
+            if t == mt or t in mreads or mt in reads:
+                return False
+        return True
+
+    def defines_subst(self, s, sub):
+        if s.k == 'Var':
+            return s.a['id'] in sub
+        if s.k == 'Assign' and s.a['op'] == '=' and strip(s.c[0]).k == 'Ref':
+            return strip(s.c[0]).a.get('id') in sub
+        return False
+
     def stmts(self, la, lb, ctx_a, ctx_b):
         la, lb = flatten(la), flatten(lb)
+        if self.subst_a:
+            la = [x for x in la if not self.defines_subst(x, self.subst_a)]
+        if self.subst_b:
+            lb = [x for x in lb if not self.defines_subst(x, self.subst_b)]
         if self.ext_only:
             lb = [x for x in lb if not (x.k not in ('If', 'For', 'While', 'Do', 'Switch') and self.writes_only_ext(x))]
         i = j = 0
@@ -266,6 +304,17 @@ class Comparer(object):
                     raise
                 self.restore(snap)
                 first = m
+            # benign reordering of independent local assignments (Lstore = L->Store; Ustore = U->Store; in either order)
+            moved = False
+            for k in (1, 2, 3):
+                if j + k < len(lb) and self.independent(lb[j:j + k + 1]) and self.try_stmt(la[i], lb[j + k]):
+                    lb.insert(j, lb.pop(j + k))
+                    moved = True
+                    break
+            if moved:
+                i += 1
+                j += 1
+                continue
             # recovery: one or two extra statements on either side
             done = False
             for skip in (1, 2, 3):
@@ -377,6 +426,13 @@ class Comparer(object):
     def expr(self, a, b, in_message=False):
         self.nodes += 1
         a, b = strip_trivial(a), strip_trivial(b)
+        for _ in range(4):      # locals that merely name a pure sub-expression in one variant (hoisting) are looked through
+            if a.k == 'Ref' and a.a.get('id') in self.subst_a:
+                a = strip_trivial(self.subst_a[a.a['id']])
+            elif b.k == 'Ref' and b.a.get('id') in self.subst_b:
+                b = strip_trivial(self.subst_b[b.a['id']])
+            else:
+                break
         if self.ext_only and b.k == 'Assign' and b.a['op'] == '=' and strip(b.c[0]).k == 'Ref' and strip(b.c[0]).a.get('id') in self.ext_only:
             return self.expr(a, b.c[1], in_message)      # f = (j = 0)  vs  j = 0
         if self.ext_only and b.k == 'Assign' and b.a['op'] == '=' and a.k == 'Assign' and strip(b.c[1]).k == 'Assign' \
@@ -489,14 +545,54 @@ def compare(fa, fb, letters, known=None, twin=False):
     """returns {'nodes': n, 'div': [divergences]}; empty list = equivalent.
     twin=True: fb is an extended copy of fa (ILU variants): parameters are matched by name and fb may contain additional
     statements that write only variables/arrays that do not exist in fa (additive bookkeeping)."""
-    c = Comparer(fa, fb, letters, known, twin=twin)
-    if twin:
-        c.stmts(fa.body.c, fb.body.c, fa.body, fb.body)
-    elif len(fa.params) != len(fb.params):
-        c.record(fa.body, fb.body, 'different number of parameters')
-    else:
-        c.stmts(fa.body.c, fb.body.c, fa.body, fb.body)
+    def once(sa, sb):
+        c = Comparer(fa, fb, letters, known, twin=twin, subst_a=sa, subst_b=sb)
+        if twin:
+            c.stmts(fa.body.c, fb.body.c, fa.body, fb.body)
+        elif len(fa.params) != len(fb.params):
+            c.record(fa.body, fb.body, 'different number of parameters')
+        else:
+            c.stmts(fa.body.c, fb.body.c, fa.body, fb.body)
+        return c
+    c = once({}, {})
+    if c.div and not twin:
+        # a variant that hoists a pure sub-expression into a local assigned exactly once (nz = A->nrow) is the same program:
+        # look through such locals and compare again; the second verdict stands only if it is clean
+        sa, sb = hoists(fa), hoists(fb)
+        if sa or sb:
+            c2 = once(sa, sb)
+            if not c2.div:
+                return {'nodes': c2.nodes, 'div': [], 'hoists': sorted(v.a['name'] for vid, v in list(fa.locals.items()) + list(fb.locals.items()) if vid in sa or vid in sb)}
     return {'nodes': c.nodes, 'div': c.div}
+
+
+def hoists(f):
+    """locals of f assigned exactly once, from a pure call-free expression whose operands are never assigned in f"""
+    count = {}
+    rhs = {}
+    assigned = set()
+    for n in f.body.walk():
+        if n.k == 'Var' and n.c:
+            count[n.a['id']] = count.get(n.a['id'], 0) + 1
+            rhs[n.a['id']] = n.c[0]
+        elif n.k == 'Assign' and strip(n.c[0]).k == 'Ref':
+            vid = strip(n.c[0]).a.get('id')
+            count[vid] = count.get(vid, 0) + (1 if n.a['op'] == '=' else 2)
+            rhs[vid] = n.c[1]
+        elif n.k == 'Unary' and n.a['op'] in ('++', '--', '&') and strip(n.c[0]).k == 'Ref':
+            vid = strip(n.c[0]).a.get('id')
+            count[vid] = count.get(vid, 0) + 2
+    out = {}
+    for vid, e in rhs.items():
+        if count.get(vid) != 1 or vid not in f.locals:
+            continue
+        if not pure_expr(e) or any(x.k in ('Call', 'Index') or (x.k == 'Unary' and x.a['op'] == '*') for x in e.walk()):
+            continue
+        ops = {x.a.get('id') for x in e.walk() if x.k == 'Ref' and x.a.get('dk') in ('VarDecl', 'ParmVarDecl')}
+        if any(count.get(o, 0) > 0 for o in ops):
+            continue
+        out[vid] = e
+    return out
 
 
 def sibling_name(name, frm, to):
